@@ -13,6 +13,12 @@ Definition ho_serve_awaits_close_after_handoff : bool := true.
 Definition ho_serve_yields : list bytes := [hex "73657276652e6c6f6f6b75702e6166746572"; hex "73657276652e6f666665722e6265666f7265"; hex "73657276652e6177616974636c6f73652e6265666f7265"; hex "73657276652e6177616974636c6f73652e6166746572"; hex "73657276652e6f666665722e637478646f6e65"; hex "73657276652e68616e646c65722e6265666f7265"]. (* serve.lookup.after serve.offer.before serve.awaitclose.before serve.awaitclose.after serve.offer.ctxdone serve.handler.before *)
 Definition ho_getidtyp_skips_qualified : bool := true.
 Definition ho_responder_close_closes_chan : bool := true.
+Definition ho_send_iq_generates_id_when : nat := 1. (* 1: id == "", 2: attribute absent, 3: other, 0: never *)
+Definition ho_send_iq_registers_completed_id : bool := true.
+Definition ho_send_message_generates_id_when : nat := 1. (* 1: id == "", 2: attribute absent, 3: other, 0: never *)
+Definition ho_send_message_registers_completed_id : bool := true.
+Definition ho_send_presence_generates_id_when : nat := 1. (* 1: id == "", 2: attribute absent, 3: other, 0: never *)
+Definition ho_send_presence_registers_completed_id : bool := true.
 Definition ho_errcloser_token_closes : nat := 1. (* 0 nothing, 1 the guarded Close, 2 the embedded reader *)
 Definition ho_errcloser_close_once : bool := true.
 Definition ho_iter_wraps_response : bool := true.
@@ -48,4 +54,6 @@ Definition ho_ibb_serve_close_returns_error : bool := false.
 Definition ho_ibb_expect_cleanup_deletes : nat := 1.
 Definition ho_ibb_expect_cleanup_checks_owner : bool := true.
 Definition ho_ibb_open_offer_gives_up_on_done : bool := true.
+Definition ho_ibb_responses_obtained : nat := 1.
+Definition ho_ibb_responses_closed_on_all_paths : nat := 1.
 Definition ho_ibb_writer_tests_abort_first : bool := true.
